@@ -109,6 +109,13 @@ class ivmpf(object):
 
     def __contains__(self, t):
         t = self.ctx.mpf(t)
+        if hasattr(t, '_mpci_'):
+            # a complex number lies on the real line only if its
+            # imaginary part is exactly zero
+            re, im = t._mpci_
+            if im != mpi_zero:
+                return False
+            t = self.ctx.make_mpf(re)
         return (self.a <= t.a) and (t.b <= self.b)
 
     def __str__(self):
